@@ -52,6 +52,12 @@ def equations(cfg, rng, n):
             continue
         fresh = next(ch for ch in "wktmhjrvdl" if ch not in t)
         yield "side-of-equation", (f"{t} = {fresh}" if k % 2 else f"{fresh} = {t}"), []
+    # the edge texts that ARE equations
+    for t in RC.EDGE_TEXTS:
+        if "=" in t:
+            k += 1
+            if cfg.mine(k):
+                yield "edge-equation", t, []
     for i in range(n):
         c = rng.random()
         if c < 0.6:
@@ -113,8 +119,8 @@ def run(rec, cfg):
             continue
         rec.arm("start:" + src)
         MR.HINTS[:] = hints
-        if D._small(root, 25) and rng.random() < 0.5:
-            D.inplace_pairs(rec, root, rules, rng, first=6, second=4)
+        if D._small(root, 25) and (src in ("side-of-equation", "edge-equation") or rng.random() < 0.5):
+            D.inplace_pairs(rec, root, rules, rng, first=10 if src != "template" else 6, second=8 if src != "template" else 4)
         if rng.random() < 0.5:
             inplace_equation_chain(rec, root, rules, rng, text, hints)
         if rng.random() < 0.6:
